@@ -168,7 +168,22 @@ def getOptStr (j : Json) (k : String) : Except String (Option String) := optStr 
 def pointsOfJson (a : Json) : Except String Points := do
   let d ← getNat a "dim"
   let rows ← (← getArr a "pts").toList.mapM ratListOfJson
-  pure { d := d, rows := rows }
+  let nd := match a.getObjVal? "ndim" with
+    | .ok v => (v.getNat?.toOption).getD 2
+    | .error _ => 2
+  pure { d := d, rows := rows, ndim := nd }
+
+/-- the float32 cast as a table `[[x, float32(x)], …]` supplied by the harness (identity elsewhere) -/
+def flOfJson (a : Json) : Except String (Rat → Rat) := do
+  match a.getObjVal? "fl" with
+  | .error _ => pure id
+  | .ok v =>
+    let ps ← (← v.getArr?).toList.mapM fun p => do
+      let q ← ratListOfJson p
+      match q with
+      | [x, y] => pure (x, y)
+      | _ => throw "fl: pairs expected"
+    pure (fun x => (ps.lookup x).getD x)
 
 /-- spec → the model's constructor call; `Except String` = protocol error, inner = the constructor's verdict -/
 partial def buildSpec (j : Json) : Except String (Except ErrKind Item) := do
@@ -203,8 +218,8 @@ partial def buildSpec (j : Json) : Except String (Except ErrKind Item) := do
             | _ => throw "channel pair expected"
           pure (some ps)
       pure (mkWaveform name (← getStr a "cls") (← getStr a "inst") ch rel)
-    | "SCOORD" => pure (mkScoord name (← getStr a "gt") (← pointsOfJson a) (← getOptStr a "origin") (← getOptStr a "fiducial") rel)
-    | "SCOORD3D" => pure (mkScoord3d name (← getStr a "gt") (← pointsOfJson a) (← getStr a "frame_of_reference")
+    | "SCOORD" => pure (mkScoord (← flOfJson a) name (← getStr a "gt") (← pointsOfJson a) (← getOptStr a "origin") (← getOptStr a "fiducial") rel)
+    | "SCOORD3D" => pure (mkScoord3d (← flOfJson a) name (← getStr a "gt") (← pointsOfJson a) (← getStr a "frame_of_reference")
                           (← getOptStr a "fiducial") rel)
     | "TCOORD" =>
       let arg ← match a.getObjValD "kind" with
